@@ -87,6 +87,12 @@ def ref_equal(ea: T.ENode, eb: T.ENode) -> tuple[bool, list[int]]:
     return not diff, diff
 
 
+def _is_below(pre: list, top: int, i: int) -> bool:
+    """is pre-order position i inside the subtree rooted at pre-order position top?"""
+    size = len(T.nodes_preorder(pre[top]))
+    return top < i < top + size
+
+
 def _depths(e: T.ENode) -> list[tuple[int, int | None]]:
     out = [(0, None)]
 
@@ -127,9 +133,30 @@ def check_triple(data: dict, lab: Labels) -> None:
     lab.tag_if(capplied, "content-mutation")
 
     fresh = data.get("fresh", False)
-    ea, _ = T.expand(sa)
+    ea, exa = T.expand(sa)
     eb, _ = T.expand(sb)
     ec, _ = T.expand(sc)
+    if exa.n_shared and data["n"] % 3 == 0:
+        # a keeps one object at several positions, b is built from distinct copies and differs in an
+        # origin *below the first* of those positions only
+        eb2, _ = T.expand(sb, allow_share=False)
+        pa, pb2 = T.nodes_preorder(ea), T.nodes_preorder(eb2)
+        if len(pa) == len(pb2):
+            seen_uid: dict[int, int] = {}
+            first_of_shared = None
+            for i, e in enumerate(pa):
+                if e.uid in seen_uid and any(True for _ in pa[seen_uid[e.uid]].children()):
+                    first_of_shared = seen_uid[e.uid]
+                    break
+                seen_uid.setdefault(e.uid, i)
+            if first_of_shared is not None:
+                below = [i for i in range(first_of_shared + 1, len(pa))
+                         if _is_below(pa, first_of_shared, i)]
+                if below:
+                    tgt = pb2[below[data["n"] // 3 % len(below)]]
+                    tgt.origin = ["code", 2, 3, 5] if tgt.origin != ["code", 2, 3, 5] else ["gen", 2]
+                    eb = eb2
+                    lab.tag("difference-below-first-occurrence-of-shared-node")
     src = og.make_sources()
     ba = T.Built(ea, src)
     hashes = [(n, hash(n)) for n in T.live_nodes(ba.root)]
@@ -166,6 +193,15 @@ def check_triple(data: dict, lab: Labels) -> None:
                 nontrivial = True
             if idx is not None and idx >= 1:
                 lab.tag("in-tuple-index>=1")
+    # the same comparisons made from inside a running traversal of one operand give the same answers, and
+    # the traversal still yields every position
+    inner: list = []
+    walked = list(a.dfs(filter=lambda i: (inner.append((a == b, b == a, a == c, i.node == i.node)), True)[1]))
+    require(len(walked) == len(T.nodes_preorder(ea)) - 1, "traversal-disturbed-by-comparison",
+            f"{len(walked)} positions, expected {len(T.nodes_preorder(ea)) - 1}")
+    for r_ab, r_ba, r_ac, r_self in inner:
+        require(r_ab is real[("a", "b")] and r_ba is real[("a", "b")] and r_ac is real[("a", "c")] and r_self is True,
+                "eq-inside-a-running-traversal", f"{(r_ab, r_ba, r_ac, r_self)} vs {(real[('a', 'b')], real[('a', 'c')])}")
     if real[("a", "b")] and real[("b", "c")]:
         require(real[("a", "c")], "eq-transitive", "a==b and b==c but a!=c")
         lab.tag("transitive-chain")
